@@ -272,7 +272,12 @@ class UnsafeImportsML(Analysis):
             # NOTE(boyan): Special case with eval?
             # Copy pasted from pickled.unsafe_imports() original implementation
             elif "eval" in (n.name for n in node.names):
-                yield node
+                yield AnalysisResult(
+                    Severity.LIKELY_OVERTLY_MALICIOUS,
+                    f"`{shortened}` imports `eval` that is indicative of a malicious pickle file.",
+                    "UnsafeImportsML",
+                    trigger=shortened,
+                )
 
 
 class BadCalls(Analysis):
